@@ -47,7 +47,7 @@ sweep.thorough_only = True
 
 def c5(ctx):
     state.shared_state(ctx, ["simfile.notes.timed:time_notes", "simfile.timing.engine:TimingEngine.__init__", "simfile.timing.engine:TimingEngine.hittable", "simfile.timing.engine:TimingEngine.time_at"], "timing a chart depends on the note data and timing data passed in, as they are at the call")
-    timing.warp_union(ctx)
+    timing.event_pairing(ctx)
 
 def c_api(ctx):
     baseline.surface(ctx, "C13: documented surface", modules=['simfile.timing.engine', 'simfile.notes.timed', 'simfile.timing'])
